@@ -174,6 +174,25 @@ def main():
                     ok = should_raise or b[0] >= b[2] or b[1] >= min(b[3], 4000.0)   # crowsetta's own validators reject empty boxes
                 if not ok:
                     s.fail(f"bbox_from_annotation:{kind}:cast={cast}:rtg={rtg}", f"export of {kind} (cast={cast}, raise_on_time_geometries={rtg}) wrong")
+    # ---------------- the clip-level wrapper: (cast_geometry, ignore_errors) x format on a clip with matching and non-matching geometries
+    from soundevent.io.crowsetta.annotation import annotation_from_clip_annotation
+    clip = data.Clip(recording=rec, start_time=0, end_time=10)
+    mk = lambda g: data.SoundEventAnnotation(sound_event=data.SoundEvent(recording=rec, geometry=g), tags=[T("species", "A")])
+    interval, box = data.TimeInterval(coordinates=[1.0, 2.0]), data.BoundingBox(coordinates=[3.0, 100.0, 4.0, 900.0])
+    line = data.LineString(coordinates=[[5.0, 100.0], [6.0, 900.0]])
+    for fmt, cast, ign in itertools.product(("seq", "bbox"), (True, False), (True, False)):
+        s.case(None, ("clip-export", fmt, cast, ign))
+        # one event whose geometry matches the format and one that can be cast to it (a time-only geometry cannot become a box)
+        ca = data.ClipAnnotation(clip=clip, sound_events=[mk(interval), mk(box)] if fmt == "seq" else [mk(box), mk(line)])
+        # with casting every event is exported; without it the non-matching one is skipped (ignore_errors) or the call raises
+        want = 2 if cast else (1 if ign else "raise")
+        try:
+            out = annotation_from_clip_annotation(ca, "a.csv", fmt, ignore_errors=ign, cast_geometry=cast, value_only=True)
+            got = len(out.seq.segments) if fmt == "seq" else len(out.bboxes)
+        except ValueError:
+            got = "raise"
+        if got != want:
+            s.fail(f"clip_export:{fmt}:cast={cast}:ignore={ign}", f"annotation_from_clip_annotation(fmt={fmt}, cast_geometry={cast}, ignore_errors={ign}) exported {got}, expected {want}")
     return s.finish("one case per option combination / (samplerate, time expansion, times) / geometry type x flags; distinct by inputs")
 
 
